@@ -786,7 +786,12 @@ func report(p *plan, res result) string {
 		if p.shape {
 			shape = 1
 		}
-		return fmt.Sprintf("mp\t%d\t%s\t%d\t%d\t%d\t%s\t%s\t%s\t%s\t%s\t%s\t%s\t%d\t%s", p.id, hx([]byte(p.boundary)), p.timeoutUS, p.disc, res.status, ctype, pls, hx(res.raw), join(items), join(bs), v, res.handler, shape, p.desc)
+		// the boundary a client uses is the one announced in the response header
+		bnd := p.boundary
+		if _, params, err := mime.ParseMediaType(res.ctype); err == nil && params["boundary"] != "" {
+			bnd = params["boundary"]
+		}
+		return fmt.Sprintf("mp\t%d\t%s\t%d\t%d\t%d\t%s\t%s\t%s\t%s\t%s\t%s\t%s\t%d\t%s", p.id, hx([]byte(bnd)), p.timeoutUS, p.disc, res.status, ctype, pls, hx(res.raw), join(items), join(bs), v, res.handler, shape, p.desc)
 	}
 	// ns: a request the transport answers without opening a stream: one JSON document
 	v := "ok"
